@@ -463,6 +463,9 @@ func (a *xAnalysis) step(s *xState, idx int) {
 				}
 				// will the register keep a p-based value? (ADD/SUB/post-increment keep it)
 				keeps := in.Op == "ADDQ" || in.Op == "SUBQ" || in.Op == "ADD" || in.Op == "SUB"
+				if (in.Op == "LEAQ" || in.Op == "LEAL") && len(args) == 2 && args[0].Kind == OMem && args[0].Reg == w {
+					keeps = true // LEAQ off(p)(idx), p: the same pointer, moved
+				}
 				for _, m := range e.Mem {
 					if m.Base == w && m.PostInc != 0 {
 						keeps = true
@@ -480,6 +483,7 @@ func (a *xAnalysis) step(s *xState, idx int) {
 				if !other && a.res != nil && a.recording {
 					a.recordConsumption(p, old.Sub(linTerm(baseTerm(p), true)), wants, s, in)
 					delete(s.moved, p)
+					delete(s.cov, p) // a new pass over the parameter starts from nothing
 				}
 			}
 		}
@@ -564,8 +568,16 @@ func (a *xAnalysis) step(s *xState, idx int) {
 		case "LEAQ":
 			if args[0].Kind == OSym {
 				a.setReg(s, args[1].Reg, linTerm("&sym:"+args[0].Sym, true))
-			} else if args[0].Kind == OMem && s.regs[args[0].Reg] != nil {
+			} else if args[0].Kind == OMem && s.regs[args[0].Reg] != nil && args[0].Index == "" {
 				a.setReg(s, args[1].Reg, s.regs[args[0].Reg].Add(linConst(args[0].Off)))
+			} else if args[0].Kind == OMem && s.regs[args[0].Reg] != nil && args[0].Index != "" && s.regs[args[0].Index] != nil {
+				nv := s.regs[args[0].Reg].Add(linConst(args[0].Off)).Add(s.regs[args[0].Index].Scale(args[0].Scale))
+				a.setReg(s, args[1].Reg, nv)
+				for k := range nv.T {
+					if strings.HasPrefix(k, "&") && !strings.HasPrefix(k, "&sym:") {
+						s.moved[k[1:]] = true
+					}
+				}
 			} else {
 				a.setReg(s, args[1].Reg, nil)
 			}
@@ -857,7 +869,7 @@ func (a *xAnalysis) checkAccesses(s *xState, idx int) {
 			}
 		}
 		rec.off = off
-		if a.contract != nil && !strings.HasPrefix(base, "&sym:") && a.contract.consumeSet[base[1:]] != nil && m.Index != "" {
+		if a.contract != nil && !strings.HasPrefix(base, "&sym:") && a.contract.consumeSet[base[1:]] != nil {
 			// a streamed parameter addressed as base+index: the pointer never moves; what is consumed is the prefix accessed
 			// without a gap
 			pn := base[1:]
@@ -1166,6 +1178,7 @@ func (a *xAnalysis) normalize(s *xState, to int) {
 				if !other {
 					a.recordConsumption(p, v.Sub(linTerm(baseTerm(p), true)), wants, s, at)
 					delete(s.moved, p)
+					delete(s.cov, p)
 				}
 			}
 		}
@@ -1676,6 +1689,11 @@ func (a *xAnalysis) recordConsumption(p string, adv *Lin, wants []*Lin, s *xStat
 	ok := false
 	for _, w := range wants {
 		if ProveNonNeg(adv.Sub(w), s.facts) {
+			ok = true
+		}
+		// or: the prefix accessed without a gap reaches that end (the last step need not advance the pointer, and a final
+		// block may overlap bytes already processed)
+		if cv := s.cov[p]; cv != nil && ProveNonNeg(cv.Sub(w), s.facts) {
 			ok = true
 		}
 	}
